@@ -1222,7 +1222,7 @@ def _sid_valid(a):
     return True
 
 
-PRED_ID = OneOf(Int(1, 30), ListOf(Int(1, 30), 2, 3))
+PRED_ID = OneOf(Int(1, 30), ListOf(Int(1, 30), 1, 3))
 Spec("ScenarioID", SC.ScenarioID, {
     "cooperative": Dflt(BOOL), "country_id": Dflt(Opt(Choice(["ZAM", "DEU", "USA", "CHN", "ESP", "BEL", "FRA"]))),
     "map_name": Dflt(Choice(["Test", "US101", "Muc", "Lanker", "Te-st", "US_101", "A9"])), "map_id": Dflt(Int(1, 40)),
